@@ -18,7 +18,20 @@ pub struct Template {
     pub files: Vec<LFile>,
 }
 
+/// A script rule for the templates: returns a message, needs no library.
+fn script() -> &'static str {
+    static S: std::sync::OnceLock<(crate::cli::Scratch, String)> = std::sync::OnceLock::new();
+    &S.get_or_init(|| {
+        let s = crate::cli::Scratch::new("c02lua");
+        s.write("msg.lua", "function validate(ctx, content)\n  return \"script says no: \" .. #content\nend\n");
+        let p = s.path("msg.lua").display().to_string();
+        (s, p)
+    })
+    .1
+}
+
 pub fn templates() -> Vec<Template> {
+    let lua = script();
     vec![
         Template {
             name: "TA-python-rules",
@@ -40,7 +53,7 @@ pub fn templates() -> Vec<Template> {
             files: vec![lfile(
                 "x.js",
                 "let {} = 0;",
-                "O|let pad0 = 0;\nO|let pad1 = 0;\nT0|/* é <block name=\"s\" keep-sorted z=\"1\"> note */ let b = 1;\nC|let a = 2;\nE0|/* </block> note */\nO|let pad2 = 0;\nO|let pad3 = 0;\nT1|/* <block name=\"c\" line-count=\"<1\"> */ let c1 = 1;\nE1|// </block>\nO|let pad4 = 0;\nO|let tail = 0;",
+                &format!("O|let pad0 = 0;\nO|let pad1 = 0;\nT0|/* é <block name=\"s\" keep-sorted z=\"1\"> note */ let b = 1;\nC|let a = 2;\nE0|/* </block> note */\nO|let pad2 = 0;\nO|let pad3 = 0;\nT1|/* <block name=\"c\" line-count=\"<1\" check-lua=\"{lua}\"> */ let c1 = 1;\nE1|// </block>\nO|let pad4 = 0;\nO|let tail = 0;"),
             )],
         },
         Template {
@@ -325,7 +338,7 @@ impl Space for C02Space {
 }
 
 pub fn run(cfg: &Cfg, sink: &Arc<Sink>) -> Report {
-    let mut report = Report::new("states = repository contents reached from a labelled template whose blocks carry rules (sorted/unique/pattern/count, violating and not; 5 templates: Python line comments over two files, JS one-line block comments with content on the tag's line and a multi-byte character before the tag, JS tag on line 2 of a 3-line comment with a 3-line end comment, Markdown link-reference + HTML comments, nested) by whole-line insertions/deletions/replacements of content and outside lines and by character-level edits of the tag lines (inside the `<`…`>` span: value character, attribute inserted before `>`, last attribute removed, attribute inserted after `<block`; outside it: character before `<`, after `>`, end of the note, in the end-tag comment; first content character on the tag's line); in every state real `git diff -U<k>` is fed to the real code without path arguments, with `**` and with the first file as path argument, and the same tree is scanned in full; per block the edit classification {inside, tag-only, untouched, adjoining = don't care} fixes selection and the content flag, and every selected block's diagnostics must equal the full scan's; non-trivial = every state ≠ template");
+    let mut report = Report::new("states = repository contents reached from a labelled template whose blocks carry rules (sorted/unique/pattern/count and a Lua script rule, violating and not; 5 templates: Python line comments over two files, JS one-line block comments with content on the tag's line and a multi-byte character before the tag, JS tag on line 2 of a 3-line comment with a 3-line end comment, Markdown link-reference + HTML comments, nested) by whole-line insertions/deletions/replacements of content and outside lines and by character-level edits of the tag lines (inside the `<`…`>` span: value character, attribute inserted before `>`, last attribute removed, attribute inserted after `<block`; outside it: character before `<`, after `>`, end of the note, in the end-tag comment; first content character on the tag's line); in every state real `git diff -U<k>` is fed to the real code without path arguments, with `**` and with the first file as path argument, and the same tree is scanned in full; per block the edit classification {inside, tag-only, untouched, adjoining = don't care} fixes selection and the content flag, and every selected block's diagnostics must equal the full scan's; non-trivial = every state ≠ template");
     report.assume("all lines of the templates are pairwise distinct and inserted lines are fresh, so git's minimal diff is the edit script");
     report.assume("rule verdicts are compared metamorphically with the full scan (C06–C09 decide the rule semantics themselves)");
     let n = templates().len();
